@@ -147,6 +147,19 @@ def render_forwarding(o, i, fl, placement):
               'def w(%s):' % absig.render_params(o),
               '    ' + (call_text(first, o, fl) if placement == 'auto_first_unresolvable' else call_text(first, o, dict(fl, n=fl['n'] + 1))),
               '    return ' + call_text('inner', o, fl), '']
+    elif placement in ('auto_loop_taint_after', 'auto_compr_shadow'):
+        # the forwarded star is REPLACED between two executions of the same call: after the call in a loop body that runs twice, or by a
+        # comprehension variable spelled like it (the comprehension's own scope) -- the second / only call forwards something else
+        va = next((p['n'] for p in o if p['k'] == 'var'), None)
+        vk = next((p['n'] for p in o if p['k'] == 'vkw'), None)
+        L += ['def inner(%s):' % absig.render_params(i), '    return locals()', 'def w(%s):' % absig.render_params(o)]
+        if placement == 'auto_loop_taint_after':
+            L += ['    for _i in (0, 1):', '        r = ' + call_text('inner', o, fl)]
+            L += ['        %s = {}' % vk] if vk and (fl['uvk'] or not va) else ['        %s = ()' % va]
+            L += ['    return r', '']
+        else:
+            gen = 'for %s in ({},)' % vk if vk and (fl['uvk'] or not va) else 'for %s in ((),)' % va
+            L += ['    return [%s %s]' % (call_text('inner', o, fl), gen), '']
     elif placement == 'auto_class_call':
         # the subject is a CLASS whose instances forward when called: calling the class runs the constructor (which takes nothing here),
         # whatever __call__ would accept
